@@ -35,7 +35,7 @@ def frag_set_case(rng):
     nd = 0
     for i in range(rng.randint(1, 4)):
         if coarse:
-            g = M.gen_coarse_graph(rng, rng.randint(1, 8))
+            g = M.gen_coarse_graph(rng, rng.randint(1, 8), orders=(0, 1, 1, 1, 2, 3))
         else:
             g = M.gen_molecule(rng, max_heavy=rng.choice([1, 3, 6, 10]), p_ring=rng.choice([0.25, 0.7]))
         desc = {}
@@ -72,7 +72,13 @@ def cases(seed, tier, shard, nshards):
             if c:
                 c = dict(c, kind='complete', string=c['base_string'] + '.' + c['frag_string'], coarse_last=False,
                          features=sorted(set(c['features']) | {'complete_cut'}))
-        elif r < 0.85:
+        elif r < 0.8:
+            c0 = MC.random_cut_case(rng, rng.choice([3, 6, 10]), ctor='string')
+            c = MC.add_virtual(rng, c0) if c0 else None
+            if c:
+                c = dict(kind='complete', string=c['base_string'] + '.' + c['frag_string'], coarse_last=False,
+                         features=sorted(set(c['features']) | {'complete_virtual_edges'}), nheavy=c['nheavy'])
+        elif r < 0.88:
             c = MC.random_shared_case(rng, rng.choice([6, 10]), ctor='string')
             if c:
                 c = dict(kind='complete', string=c['base_string'] + '.' + c['frag_string'], coarse_last=False,
